@@ -5,16 +5,20 @@
    values are literals of the encoding; for the full trees of the one-item schemas every
    single-point mutant is classified and every predicted tree conforms and is unaltered,
    and dropping a structural token always yields an ill-formed document.
+   The trees of a schema include the sized ones (EncodingSets.SizedTrees): every collection with n entries
+   for every n of Sizes, the children of every node in three arrangements; the interleaved XML document
+   of each of them (XRiffle) must decode to the same tree.
    One initial state per schema; the first step picks the tree, the second checks it.                       *)
 EXTENDS EncodingSets
-CONSTANTS Sets, MutMax            \* Sets: set of item sets; MutMax: mutants only for |S| <= MutMax
+CONSTANTS Sets, MutMax, Sizes, SizesMany, ManyMin   \* Sets: set of item sets; MutMax: mutants only for |S| <= MutMax;
+  \* Sizes / SizesMany: entries per collection in the sized trees of schemas with < / >= ManyMin items
 VARIABLES si, tree, picked
 vars == <<si, tree, picked>>
 Wd(S) == Cardinality(S) = 1
 MCInit == si \in Sets /\ tree = NoTree /\ picked = FALSE
 \* two steps, so that the checks of one schema's trees are spread over all workers
 Pick == /\ ~picked /\ tree = NoTree /\ UNCHANGED <<si, picked>>
-        /\ \E t \in Trees(si, Wd(si)) : tree' = t
+        /\ \E t \in Trees(si, Wd(si)) \cup SizedTrees(si, IF Cardinality(si) >= ManyMin THEN SizesMany ELSE Sizes, {1, 2, 3}) : tree' = t
 Check == ~picked /\ tree # NoTree /\ picked' = TRUE /\ UNCHANGED <<si, tree>>
 MCNext == Pick \/ Check
 Sn == Schema(si)
@@ -35,6 +39,12 @@ XmlRT ==
   IN /\ p.ok /\ ~p.trailing /\ XMatch(doc, p.e)
      /\ o.cls = "tree" /\ SameTree(Sn, o.t, tree)
      /\ Conforms(Sn, o.t) = "" /\ NotAltered(Sn, o.t, XLitsOf(p.e))
+\* RFC 6020 7.7.7 / 7.8.5: entries interleaved with their siblings are the same list
+XmlRiffleRT ==
+  LET p == XParse(XToks(XRiffle(EncX(Sn, tree))))
+      o == DecX(Sn, p.e)
+  IN p.ok /\ ~p.trailing /\ o.cls = "tree" /\ SameTree(Sn, o.t, tree)
+RiffleXML == picked => XmlRiffleRT
 TreeConforms == picked => Conforms(Sn, tree) = ""
 RoundTripRFC == picked => JsonRT(TRUE)
 RoundTripJSON == picked => JsonRT(FALSE)
